@@ -93,15 +93,21 @@ def currently_under_condition():
 class _ConditionalAssignment(object):
     def __init__(self):
         self.defaults = {}
+        self._requested_defaults = None
 
     def __call__(self, defaults):
-        self.defaults = defaults
+        # only adopted once __enter__ has made sure that no other block is open: a refused
+        # nested conditional_assignment(defaults=...) must not replace the open block's defaults
+        self._requested_defaults = defaults
         return self
 
     """ Context providing functionality of "conditional_assignment". """
     def __enter__(self):
         global _depth
+        requested, self._requested_defaults = self._requested_defaults, None
         _check_no_nesting()
+        if requested is not None:
+            self.defaults = requested
         _depth = 1
 
     def __exit__(self, *exc_info):
